@@ -1,19 +1,28 @@
 (* Props/C09.v — property C09: the context reader partitions the document without loss, duplication or reordering.
    Statements only.  Proofs: Proofs/C09_reader.v, C09_heap.v, C09_addseg.v, C09_ctx.v; Spec/C09_spec.v.
 
-   PARTIAL.  Proved: for EVERY text, map environment and loop id for which iteration completes, if in the final store
-   every children list is in allocation order (no loop node was ever inserted before an older sibling), then the
-   segments of the yielded nodes, concatenated in the order yielded, are exactly the source segments in source order,
-   each with the set position counter and line number the reader had.  The premise is about the run, not the input:
-   it is NOT implied by completion — C09_unrestricted_is_false exhibits an (artificial) map with two sibling loops of
-   the same id on which a completed iteration reorders two segments.  A map-level sufficient condition is not proved.
-   Not proved either: that every tree is rooted at one instance of the requested loop and holds precisely that
-   instance's segments arranged by map path (checked on the implementation by the oracle of this check). *)
+   Proved: (1) for EVERY text, map environment and loop id for which iteration completes, if in the final store every
+   children list is in allocation order, the segments of the yielded nodes, concatenated in the order yielded, are
+   exactly the source segments in source order, each with the set position counter and line number the reader had
+   (C09_no_loss_no_reorder_partial); the premise is about the run and is NOT implied by completion
+   (C09_unrestricted_is_false: an artificial map with two sibling loops of one id).
+   (2) A MAP-LEVEL condition discharges the premise (Spec/C09_order_spec.v, Proofs/C09_order_*.v): computable
+   ctx_order_ok (bounded depth, no two loops share an x12 path, no segment child whose id could start its own loop
+   while an earlier loop sibling is exposed) per map, lid_ok for the requested loop id, and compatibility of the maps
+   the 278 BHT switch can reach: C09_allocation_order, and C09_no_loss_no_reorder without the premise.  The shipped
+   configuration satisfies it for EVERY loop id except ISA_LOOP (C09_shipped_no_loss_no_reorder), by evaluation over
+   the maps regenerated on each run.  For ISA_LOOP no per-map condition can suffice: the 4010 and 5010 maps put
+   ISA_LOOP / GS_LOOP / ST_LOOP at different positions, and with an index that lets one interchange select maps of
+   both scales a completed iteration reorders segments (C09_isa_loop_needs_cross_map_condition, on the shipped map
+   files with one index entry added; with the shipped index that document is refused).
+   PARTIAL: not proved — loop id ISA_LOOP on the shipped configuration; that every tree is rooted at one instance of
+   the requested loop and holds precisely that instance's segments arranged by map path (checked on the
+   implementation by the oracle of this check). *)
 From Coq Require Import String.
 From PX.Lib Require Import Base PyStr.
-From PX.Model Require Import Path Segment Raw Reader MapLoad Context CtxReader.
-From PX.Spec Require Import C09_spec.
-From PX.Proofs Require Import C09_ctx.
+From PX.Model Require Import Path Segment Raw Reader MapLoad MapEnv Context CtxReader.
+From PX.Spec Require Import C09_spec C09_order_spec.
+From PX.Proofs Require Import C07_driver_maps C09_ctx C09_order_run C09_order_maps.
 
 Theorem C09_no_loss_no_reorder_partial :
   forall load idx loop_id text r,
@@ -35,3 +44,47 @@ Theorem C09_unrestricted_is_false :
          concat yss = src).
 Proof. exact ctx_no_loss_no_reorder_false. Qed.
 Print Assumptions C09_unrestricted_is_false.
+
+(* the map-level condition discharges the premise ... *)
+Theorem C09_allocation_order :
+  forall load idx loop_id text r,
+    env_order_ok_x load idx loop_id ->
+    r = iter_segments_gen load idx loop_id text -> ir_res r = Ok tt ->
+    children_in_allocation_order (ir_heap r).
+Proof. exact ctx_allocation_order_x. Qed.
+Print Assumptions C09_allocation_order.
+
+(* ... so, for such environments, every completed iteration yields the source segments, all of them, in order *)
+Theorem C09_no_loss_no_reorder :
+  forall load idx loop_id text r,
+    env_order_ok_x load idx loop_id ->
+    r = iter_segments_gen load idx loop_id text -> ir_res r = Ok tt ->
+    exists src yss,
+      source_items text = Ok src /\
+      Forall2 (fun y ys => yield_items y = Ok ys) (ir_yields r) yss /\
+      concat yss = src.
+Proof. exact ctx_no_loss_no_reorder_x. Qed.
+Print Assumptions C09_no_loss_no_reorder.
+
+(* the shipped configuration (maps regenerated from /repo on this run), every loop id except ISA_LOOP *)
+Theorem C09_shipped_no_loss_no_reorder :
+  forall loop_id text r,
+    not_isa_loop loop_id ->
+    r = iter_segments_gen shipped_load shipped_idx loop_id text -> ir_res r = Ok tt ->
+    exists src yss,
+      source_items text = Ok src /\
+      Forall2 (fun y ys => yield_items y = Ok ys) (ir_yields r) yss /\
+      concat yss = src.
+Proof. exact shipped_no_loss_no_reorder_x. Qed.
+Print Assumptions C09_shipped_no_loss_no_reorder.
+
+(* loop id ISA_LOOP: with the shipped map FILES and an arbitrary index the statement is false *)
+Theorem C09_isa_loop_needs_cross_map_condition :
+  ~ (forall idx text r,
+       r = iter_segments_gen shipped_load idx (Some (sl "ISA_LOOP")) text -> ir_res r = Ok tt ->
+       exists src yss,
+         source_items text = Ok src /\
+         Forall2 (fun y ys => yield_items y = Ok ys) (ir_yields r) yss /\
+         concat yss = src).
+Proof. exact isa_loop_needs_cross_map_condition. Qed.
+Print Assumptions C09_isa_loop_needs_cross_map_condition.
